@@ -104,7 +104,7 @@ prop(
     explanation="Static analysis. Decides: C12-R1 len changes by exactly +1 in the creator and -1 in the remover, capacity is written by neither; X-WMW len/capacity/free_head/version are written "
     "only by the functions whose role allows it and only through &mut self; C12-R2 push grows iff len>=capacity and panics iff grow()==false, push_within_capacity returns Err(argument) iff len>=capacity and never grows, "
     "the grower refuses iff capacity>=2^24, grows every array from self.capacity to min((capacity+1)*2, 2^24) and stores capacity afterwards, the constructor panics iff n>2^24 before allocating and yields capacity n, len 0; "
-    "C12-R3 accessors report the fields; C12-R4 free-list pop/push/threading are locally correct list operations.",
+    "C12-R3 accessors report the fields, and the generated wrappers are thin: len/capacity/is_empty/version of every archetype of the specimen report the storage's, new/with_capacity of archetypes and of the world are single-path delegations handing their own argument(s) to the storage constructor; C12-R4 free-list pop/push/threading are locally correct list operations.",
     not_decided="that the free list holds exactly capacity-len positions after arbitrary histories (I4)",
 )
 
